@@ -4,7 +4,7 @@ CONSTANTS
   NTab = 1
   NSid = 4
   Devs = {}
-  Acts = {"ConcatEmpty", "NewVec", "ShareVec", "Copy", "Drop", "Write", "ReadFp", "Promote"}
+  Acts = {"WriteNone", "ConcatEmpty", "NewVec", "ShareVec", "Copy", "Drop", "Write", "ReadFp", "Promote"}
   Lens = {1}
   Vals = {0, 1}
   NameSet = {"-"}
@@ -18,6 +18,7 @@ INVARIANT InvRegistryExact
 INVARIANT InvNoSpuriousRefusal
 INVARIANT InvOwnership
 INVARIANT InvRect
+INVARIANT InvSharingJustified
 INVARIANT InvFpCoherent
 INVARIANT InvDtypeTruthful
 INVARIANT InvSane
